@@ -12,7 +12,7 @@
    main-progenitor / light-cone quantities, which are stored already converted — a recorded decision, not a finding).
    The only names taken from the generated file are the constructors of [col] and [rawcol] (the column names). *)
 From Coq Require Import ZArith QArith Reals List.
-From Abacus.C05 Require Import Expr Gen.
+From Abacus.HaloTable Require Import Expr Gen.
 
 Inductive dim := DLength | DVelocity | DNone.
 
